@@ -23,8 +23,8 @@ int main(int argc, char **argv) {
     }
     seg.associateChars(0, M);
     int bad = 0;
-    std::string obl = w.str("obligation");
-    if (obl.find("assertion.7") != std::string::npos) {
+    std::string obl = w.str("description");
+    if (obl.find("lies in the [before,after] range") != std::string::npos) {
         // coverage clause only: every character index lies in the [before,after] range of at least one slot
         for (int c = 0; c < M && n > 0; ++c) {
             bool in_some = false;
@@ -35,7 +35,11 @@ int main(int argc, char **argv) {
         if (bad) REPLAY_FAIL("a character index lies in no slot's [before,after] range");
         REPLAY_OK("coverage clause holds");
     }
+    bool only_inner = obl.find("between claimed characters") != std::string::npos;
+    int first_cov = -1, last_cov = -1;
+    { int kk = 0; for (Slot *s = seg.first(); s; s = s->next(), ++kk) { long long b = w.arr("w_before", kk), a = w.arr("w_after", kk); if (b < 0 || b >= M) b = 0; if (a < 0 || a >= M) a = 0; for (int c = (int)b; c <= (int)a; ++c) { if (first_cov < 0 || c < first_cov) first_cov = c; if (c > last_cov) last_cov = c; } } }
     for (int c = 0; c < M && n > 0; ++c) {
+        if (only_inner && !(first_cov >= 0 && c >= first_cov && c <= last_cov)) continue;
         const CharInfo *ci = seg.charinfo(c);
         if (ci->before() < 0 || ci->before() >= n || ci->after() < 0 || ci->after() >= n) { printf("char-info %d: before=%d after=%d with %d slots\n", c, ci->before(), ci->after(), n); bad = 1; }
     }
